@@ -198,6 +198,9 @@ class BlockIntEnumFieldListWrapper(BlockBindEnum[F], BlockWrapper[F]):
 
     @override(BlockWrapper)
     def after(self) -> None:
+        if not self.d.fields():
+            # A class body must not be empty.
+            self.push("    pass")
         self.push_empty_line()
 
     def render_enum_type(self) -> None:
